@@ -120,8 +120,13 @@ def build_type(t, ctx):
         return RawType(ss.CTYPE_ARRAY, base_type=build_type(t['of'], ctx), q=q, child_list=kids)
     if k == 'func':
         kids = [build_param(p, ctx) for p in t.get('params', [])]
-        return RawType(ss.CTYPE_FUNCTION, base_type=build_type(t['ret'], ctx), q=q, child_list=kids,
-                       fs=(ss.FUNCTION_INLINE if t.get('inline') else 0))
+        fs = ss.FUNCTION_INLINE if t.get('inline') else 0
+        ret = build_type(t['ret'], ctx)
+        # scannerparser.y puts the function specifier on the declaration specifiers, i.e. on the RETURN type, which is
+        # where Transformer._create_function reads it (symbol.base_type.base_type.function_specifier); it is kept on
+        # the function type as well
+        ret.function_specifier |= fs
+        return RawType(ss.CTYPE_FUNCTION, base_type=ret, q=q, child_list=kids, fs=fs)
     raise ValueError('unknown type kind %r' % (k, ))
 
 
